@@ -49,6 +49,7 @@ func checkVariant(sc *bw.Scenario, w *world, cl *closure, res *vresult, out *sim
 
 	checkPoison(sc, res, out)
 	checkDiagDelivery(sc, w, res, out)
+	checkDiagPackages(sc, w, res, out)
 	checkTrace(sc, res, out)
 
 	if res.closedInTask {
@@ -224,6 +225,56 @@ func checkDiagDelivery(sc *bw.Scenario, w *world, res *vresult, out *simkit.Outc
 			}
 		}
 		out.Probe("finder-diagnostic-delivered")
+	}
+}
+
+// checkDiagPackages: when the same diagnostic is emitted for several packages, the k-th
+// delivery names a file inside the package the k-th emission was about (C12).
+func checkDiagPackages(sc *bw.Scenario, w *world, res *vresult, out *simkit.Outcome) {
+	if res.bundle == nil {
+		return
+	}
+	r := res.r
+	byID := map[string][]emitted{}
+	var ids []string
+	for _, e := range r.emitted {
+		if len(byID[e.ID]) == 0 {
+			ids = append(ids, e.ID)
+		}
+		byID[e.ID] = append(byID[e.ID], e)
+	}
+	for _, id := range ids {
+		es := byID[id]
+		if len(es) < 2 || es[0].File == "" || !sourceaddrs.ValidSubPath(es[0].File) {
+			continue
+		}
+		for _, sink := range []string{"tracer|", "add:"} {
+			var sigs []string
+			for _, sg := range r.diagsSeen[id] {
+				if strings.HasPrefix(sg, sink) {
+					sigs = append(sigs, sg[strings.Index(sg, "|")+1:])
+				}
+			}
+			if len(sigs) != len(es) {
+				continue // the count oracle reports that
+			}
+			for k, e := range es {
+				f := strings.Split(sigs[k], "|")
+				if len(f) < 6 {
+					continue
+				}
+				pi, _, ok := w.splitSource(f[3])
+				if !ok {
+					continue // the file-name oracle reports that
+				}
+				dir, err := pkgDirOf(res.bundle, &sc.Pkgs[pi])
+				if err == nil && filepath.Base(dir) != e.Dir {
+					out.Violate("C12", "diag-filename", "wrong-package", fmt.Sprintf("variant %d: diagnostic %s, emission %d of %d, was raised for the package in directory %s but arrived (%s) with file name %q, which lies in package %s (directory %s)", res.r.vi, id, k+1, len(es), e.Dir, strings.TrimSuffix(sink, "|"), f[3], sc.Pkgs[pi].Addr(), filepath.Base(dir)))
+				} else if err == nil {
+					out.Probe("diagnostic-package-checked")
+				}
+			}
+		}
 	}
 }
 
